@@ -1,0 +1,14 @@
+//go:build verif
+
+// Verification contracts (property C02, addition; comment-only, read by /verif/govc). No executable code.
+// A produce blob is turned into ONE RecordBatch whose offsets are assigned from the first batch header. That is only
+// right when the blob IS one batch: its length field (bytes 8..12, the size of what follows it) must account for the
+// whole blob. This clause is refuted on the real code (trailing bytes - e.g. a second batch - are accepted) and is
+// recorded as a known finding: the repository's own fixtures carry a zero length field, so the strict check cannot be
+// added without editing the existing tests.
+
+package storage
+
+//@ func NewRecordBatchFromBytes
+//@   only_for C02
+//@   ensures [C02.accepted_blob_is_exactly_one_batch] err == nil ==> len(data) == 12 + int(be32(data, 8))
